@@ -27,9 +27,10 @@ def _c02():
 def parse_table(path):
     rows, stats = [], {}
     with open(path) as f:
-        for l in f:
+        for i, l in enumerate(f):
             l = l.rstrip("\n")
-            if not l or l.startswith("#"):
+            # the header is the FIRST line; a feature id may itself start with '#'
+            if not l or (i == 0 and l.startswith("#feature_id\t")):
                 continue
             p = l.split("\t")
             if p[0] in ("__ambiguous", "__no_feature", "__not_aligned", "__usable", "__unassigned"):
@@ -153,8 +154,8 @@ def check_model_table(strategy, recs, multi, r2t_path, model_ids, rows, stats, n
     by_read = defaultdict(list)
     n_star = 0
     with open(r2t_path) as f:
-        for l in f:
-            if l.startswith("#") or not l.strip():
+        for i, l in enumerate(f):
+            if (i == 0 and l.startswith("#read_id\t")) or not l.strip():
                 continue
             rd, t = l.rstrip("\n").split("\t")[:2]
             if t == "*":
@@ -165,9 +166,21 @@ def check_model_table(strategy, recs, multi, r2t_path, model_ids, rows, stats, n
     upper = defaultdict(Fraction)
     undetermined = set()
     n_amb = 0
+    lower = defaultdict(Fraction)
+    bounded = set()
+    several = set()
     for rd, ts in by_read.items():
+        if rd in multi and len(set(ts)) == 1:
+            # every alignment record of the read supports ONE model: the read is shared with no other model, so it is
+            # no ambiguous read and the model gets at least the weight of one uniquely assigned read (read level: 1,
+            # record level: one per record - DESIGN section 6 leaves both readings open)
+            lower[ts[0]] += 1
+            upper[ts[0]] += len(ts)
+            bounded.add(ts[0])
+            continue
         if rd in multi:
             # lines of a multi-locus read may come from different loci (one model constructor per locus)
+            several.add(rd)
             for t in ts:
                 upper[t] += 1
                 undetermined.add(t)
@@ -190,18 +203,26 @@ def check_model_table(strategy, recs, multi, r2t_path, model_ids, rows, stats, n
         if f in undetermined:
             if Fraction(h, 100) > upper[f] + Fraction(1, 100):
                 fails.append(("table_not_sum", {"feature": f, "level": "model"}, "printed %s above every admissible sum %s" % (h, upper[f])))
+        elif f in bounded:
+            lo, hi = sums.get(f, Fraction(0)) + lower[f], upper[f]
+            if Fraction(h, 100) < lo - Fraction(1, 100) or Fraction(h, 100) > hi + Fraction(1, 100):
+                fails.append(("dup_read_model_weight", {"feature": f, "level": "model"},
+                              "%s printed %s, but the reads listed under it alone (some on several alignment records) weigh "
+                              "between %s and %s" % (f, Decimal(h) / 100, lo, hi)))
         elif not C.printed_ok(h, sums.get(f, Fraction(0)), 100):
             fails.append(("table_not_sum", {"feature": f, "level": "model"},
                           "%s printed %s, sum over transcript_model_reads %s" % (f, Decimal(h) / 100, sums.get(f, 0))))
-    for f, v in sums.items():
+    for f, v in list(sums.items()) + list(lower.items()):
         if v > 0 and f not in table and f not in undetermined:
             fails.append(("feature_missing", {"feature": f, "level": "model"}, "model with assigned reads has no row (all models are confirmed)"))
-    if not (multi & set(by_read)):
+    if not several:
         exp = {"__ambiguous": n_amb, "__no_feature": n_star, "__not_aligned": n_unmapped}
         got = {k: int(stats.get(k, -1)) for k in exp}
         if got != exp:
-            fails.append(("stats_lines", {"level": "model"}, "printed %s, lines in the classes %s" % (got, exp)))
-    usable = None if (multi & set(by_read)) else len(by_read) + n_star
+            fails.append(("dup_read_model_weight" if bounded and got["__ambiguous"] > exp["__ambiguous"] else "stats_lines",
+                          {"level": "model"}, "printed %s, lines in the classes %s (a read listed under ONE model is no "
+                          "ambiguous read)" % (got, exp)))
+    usable = None if several else len(by_read) + n_star
     return fails, usable
 
 
@@ -226,15 +247,15 @@ def tpm_check(C, counts_rows, tpm_path, norm, usable, output_zeroes, what):
     return [(k, {"table": what}, d) for k, d in fl]
 
 
-def run_one(ctx, d, seed, strategy, norm, tie=False, underscore=False, threads=1, tag="p"):
+def run_one(ctx, d, seed, strategy, norm, tie=False, underscore=False, threads=1, tag="p", hash_id=False, dup=False):
     """one pipeline run; returns list of (kind, input, detail)"""
     C = _c02()
     sub = os.path.join(d, "%s_%d_%s" % (tag, seed, strategy))
     os.makedirs(sub, exist_ok=True)
-    ds = G.c02_dataset(seed, tie=tie, underscore=underscore)
+    ds = G.c02_dataset(seed, tie=tie, underscore=underscore, hash_id=hash_id, dup=dup)
     paths = ds.write(os.path.join(sub, "data"))
     base = {"mode": "pipeline", "ds_seed": seed, "strategy": strategy, "norm": norm, "tie": tie, "underscore": underscore,
-            "threads": threads}
+            "threads": threads, "hash_id": hash_id, "dup": dup}
     rc, log = P.run_isoquant(os.path.join(sub, "out"),
                              P.std_args(paths, prefix="S", threads=threads,
                                         extra=["--transcript_quantification", strategy, "--gene_quantification", strategy,
@@ -354,12 +375,17 @@ def run(ctx, d, broken):
         for i, strategy in enumerate(G.STRATEGIES):
             norm = "simple" if (i + si) % 2 == 0 else "usable_reads"
             for kind, inp, detail in run_one(ctx, d, seed, strategy, norm, tie=False, underscore=(si % 2 == 0 and i == 0),
-                                             threads=1 + (i % 2)):
+                                             threads=1 + (i % 2), hash_id=(i == 1)):
                 ctx.fail(kind, inp, detail)
             n += 1
     # the multi-locus tie (known finding multilocus_tie_weight): one run per tier keeps it observed
     for strategy in (["unique_only"] if quick else ["unique_only", "all"]):
         for kind, inp, detail in run_one(ctx, d, seeds[0], strategy, "simple", tie=True, tag="tie"):
+            ctx.fail(kind, inp, detail)
+        n += 1
+    # one read name on two primary records inside one gene (C02 GAP-1): the model table must give the read to its model
+    for strategy in (["unique_only"] if quick else ["unique_only", "with_ambiguous"]):
+        for kind, inp, detail in run_one(ctx, d, seeds[-1], strategy, "simple", dup=True, tag="dup"):
             ctx.fail(kind, inp, detail)
         n += 1
     # several experiments in one invocation (combined_* tables): three experiments in the quick tier,
@@ -376,5 +402,6 @@ def replay(ctx, failure, d):
     if inp.get("mode") == "pipeline_multisample":
         return any(k == failure["kind"] for k, _, _ in run_multisample(ctx, d, inp["ds_seed"], inp.get("n_exp", 2)))
     fl = run_one(ctx, d, inp["ds_seed"], inp["strategy"], inp["norm"], tie=inp.get("tie", False),
-                 underscore=inp.get("underscore", False), threads=inp.get("threads", 1), tag="replay")
+                 underscore=inp.get("underscore", False), threads=inp.get("threads", 1), tag="replay",
+                 hash_id=inp.get("hash_id", False), dup=inp.get("dup", False))
     return any(k == failure["kind"] for k, _, _ in fl)
